@@ -26,7 +26,7 @@ def enc(leaf, v):
         if k == "ac":
             a, b = v
             h = w // 2
-            return _txt(a, h, right=True) + _txt(b, h, right=True)
+            return (b" " * h if a is None else _txt(a, h, right=True)) + (b" " * h if b is None else _txt(b, h, right=True))
         if k == "s":
             return _txt(v, w, right=False)
         return _txt(v if isinstance(v, str) else str(v), w, right=True)
